@@ -12,6 +12,7 @@ spec = {
   'log': int,               # number of log records emitted (logging.getLogger('verif.worker'))
   'log_size': int,          # characters per record
   'release': path | None,   # 'block': wait until this file exists, then return n
+  'linger': float,          # a NON-daemon thread keeps the worker process alive this long after the function ended
 }
 """
 from __future__ import annotations
@@ -55,6 +56,9 @@ def work(spec: dict):
         for i in range(n_log):
             logger.warning('%d %s', i, body)
     _spend(float(spec.get('dur', 0.0)))
+    if spec.get('linger'):
+        import threading
+        threading.Thread(target=time.sleep, args=(float(spec['linger']),), daemon=False).start()
     out = spec.get('outcome', 'return')
     n = int(spec.get('n', 0))
     if out == 'return':
